@@ -501,14 +501,13 @@ def run_shape_groups(ctx, shim, groups, stream, what):
         ctx.violation(f"shape(): output clusters violate C02 ({key[0]}, {key[1]}, {('backward' if key[2] else 'forward/guessed') + ' direction' if len(key) > 2 else stream}; "
                       f"{len(lst)} shapings, {len(set(x[1] for x in lst))} fonts): {detail}; input clusters {meta[1]}, "
                       f"output clusters {[g[1] for g in parse_shape(rep)]}",
-                      {"stage": "search", "stream": "shape-clusters", "font_line": reg, "request": q, "case": meta[0],
+                      {"stage": "search", "stream": stream, "font_line": reg, "request": q, "case": meta[0],
                        "input_clusters": meta[1], "dir": meta[2], "level": meta[3], "kern_off": meta[4], "kind": key[0],
-                       "observed": rep[:3000], "fonts": sorted(set(x[1].split()[2] for x in lst))[:40], "count": len(lst)})
-    ctx.note_search("shape-clusters", total, nontriv, crashed_or_aborted=crashed, distribution=dist,
+                       "observed": rep[:3000], "fonts": sorted(set(x[1].split()[2] for x in lst))[:40], "count": len(lst),
+                       "more_examples": [{"font": x[1].split()[2], "request": x[2], "reply": x[4][:600]} for x in lst[1:6]]})
+    ctx.note_search(stream, total, nontriv, crashed_or_aborted=crashed, distribution=dist,
                     violations_by_kind={str(k): len(v) for k, v in found.items()},
-                    rule="corpus (font, text, options) of tests/shaping plus shuffled / repeated / sliced / resampled texts with "
-                         "non-decreasing input clusters (consecutive, gapped, repeated), x {guessed, ltr, rtl, ttb, btt} x levels 0/1/2 x "
-                         "kerning on / kern=0 x buffer flags; oracles: output cluster values ⊆ input values; the smallest input value is "
+                    rule=what + "; oracles: output cluster values ⊆ input values; the smallest input value is "
                          "present (levels 0/1, non-empty output); non-decreasing for ltr/ttb, non-increasing for rtl/btt, either for a "
                          "guessed direction (levels 0/1); non-trivial = at least one glyph came out")
     return found
